@@ -69,9 +69,12 @@ def grammar_value(rng, ty):
                            f"{rng.randint(1, 9)}e-{rng.randint(1, 9)}", f"+{rng.randint(0, 9)}.5E+2", "1e10", f"{rng.randint(0, 50)}"])
     if ty == "Z":
         alphabet = "abcXYZ019_#.-:*/ ,;=+()[]@!~"
-        # trailing blanks at the end of a line are not treated as part of the last field (every
-        # line-oriented reader here strips the line end), so Z values never end in a space
-        return "".join(rng.choice(alphabet) for _ in range(rng.randint(0, 14))).rstrip(" ")
+        # values may end in blanks or consist of blanks only; only the LAST field of a line must not end
+        # in a blank (every line-oriented reader strips the line end) - see no_trailing_blank()
+        v = "".join(rng.choice(alphabet) for _ in range(rng.randint(0, 14)))
+        if rng.random() < 0.08:
+            v = v + " " * rng.randint(1, 3)
+        return v
     if ty == "H":
         return "".join(rng.choice("0123456789ABCDEF") for _ in range(2 * rng.randint(0, 5)))
     if ty == "B":
@@ -107,7 +110,15 @@ def grammar_tags(rng, cigar, n=None, repeats=True, forced=None, ds=True):
         out.insert(0, f"tp:A:{rng.choice('PSI')}")
     if cigar is not None:
         out.insert(rng.randint(0, len(out)), f"cg:Z:{cigar}")
-    return out
+    return no_trailing_blank(out)
+
+
+def no_trailing_blank(fields):
+    """trailing white space at the end of a LINE is outside the input domain: the last field of a
+    record never ends in a blank (fields in the middle may)"""
+    if fields and fields[-1] != fields[-1].rstrip(" "):
+        fields = fields[:-1] + [fields[-1].rstrip(" ") + "x"]
+    return fields
 
 
 class GafRec:
